@@ -30,6 +30,7 @@ class DPResult:
     transitions: int = 0
     errors: List[Tuple[str, str, Any]] = field(default_factory=list)  # (key, msg, tree)
     deriv: Dict[Tuple[int, int, Hashable], Any] = field(default_factory=dict)
+    reach: Dict[Tuple[int, int], List[Hashable]] = field(default_factory=dict)  # reachable states per interval
 
     def tree(self, i: int, j: int, state: Hashable):
         """One merge tree reaching `state` on [i,j): leaf index or (left_tree, right_tree)."""
@@ -76,6 +77,7 @@ def interval_dp(
             reach[(i, j)] = list(seen)
     res.states = sum(len(v) for v in reach.values())
     res.roots = reach[(0, n)] if n > 0 else []
+    res.reach = reach
     return res
 
 
